@@ -108,6 +108,11 @@ def replay_ap(arg):
 
 # ---------------------------------------------------------------- traces
 
+def _rand_thr(rng, mode):
+    return {"center": rng.choice([0.5, 1.0, 2.0, 0.0]), "plane": rng.choice([1.0, 2.0, 3.0, 0.0]), "iou2d": rng.choice([0.1, 0.3, 0.5, 0.7, 0.0]),
+            "iou3d": rng.choice([0.1, 0.3, 0.5, 0.0])}[mode]
+
+
 def _rand_bucket(rng: random.Random):
     """random real results for bucket label 'car' -> (results, g, params)"""
     from perception_eval.evaluation.result.object_result import DynamicObjectWithPerceptionResult
@@ -118,8 +123,7 @@ def _rand_bucket(rng: random.Random):
     mode = rng.choice(MODE_NAMES)
     policy = rng.choice(["DEFAULT", "ALLOW_UNKNOWN", "ALLOW_ANY"])
     # (a threshold of exactly 0 is legal: no distance beats it, any overlap does)
-    thr = {"center": rng.choice([0.5, 1.0, 2.0, 0.0]), "plane": rng.choice([1.0, 2.0, 3.0, 0.0]), "iou2d": rng.choice([0.1, 0.3, 0.5, 0.7, 0.0]),
-           "iou3d": rng.choice([0.1, 0.3, 0.5, 0.0])}[mode]
+    thr = _rand_thr(rng, mode)
     confs = rng.sample(range(1, 100000), n)
     results = []
     ngt_car = 0
@@ -194,7 +198,9 @@ def ap_event(tid, results, g, prm, *, with_lists=True):
 
 def _one_trace(arg):
     """events of one trace id group (an Ap event, every 5th followed by a Map event)"""
+    from perception_eval.evaluation.metrics.detection.ap import Ap
     from perception_eval.evaluation.metrics.detection.map import Map
+    from perception_eval.evaluation.metrics.detection.tp_metrics import TPMetricsAp
 
     from ..build import AW, MODES
 
@@ -215,8 +221,15 @@ def _one_trace(arg):
             else:
                 rs, gg, _ = _rand_bucket(rng)
                 d[lb], gd[lb] = rs[:40], gg
-        mp = Map(d, gd, labels, MODES[prm["mode"]], [prm["thr"]] * len(labels))
-        ev2 = dict(tid=0, ev="Map", aps=[-1 if a.ap == float("inf") else _fx(a.ap, 1e6) for a in mp.aps],
+        # every label has its own threshold, and the dictionaries need not be keyed in the order of the label list
+        thrs = [prm["thr"]] * len(labels) if rng.random() < 0.3 else [_rand_thr(rng, prm["mode"]) for _ in labels]
+        if rng.random() < 0.5:
+            order = rng.sample(labels, len(labels))
+            d, gd = {lb: d[lb] for lb in order}, {lb: gd[lb] for lb in reversed(order)}
+        mp = Map(d, gd, labels, MODES[prm["mode"]], thrs)
+        fx = lambda a: -1 if a.ap == float("inf") else _fx(a.ap, 1e6)
+        single = [fx(Ap(TPMetricsAp(), [list(d[lb])], gd[lb], [lb], MODES[prm["mode"]], [th])) for lb, th in zip(labels, thrs)]
+        ev2 = dict(tid=0, ev="Map", aps=[fx(a) for a in mp.aps], single=single,
                    map6=-1 if mp.map == float("inf") else _fx(mp.map, 1e6))
         evs.append(([ev2], dict(map=True, aps=ev2["aps"], map6=ev2["map6"])))
     return evs
